@@ -42,9 +42,9 @@ LeapsBefore(y) == ((y - 1) \div 4) - ((y - 1) \div 100) + ((y - 1) \div 400)
 \* day number of January 1st of year y
 DaysBeforeYear(y) == 365 * (y - 1970) + LeapsBefore(y) - LeapsBefore(1970)
 
-\* days of year y before the first of month m
-RECURSIVE DaysBeforeMonth(_, _)
-DaysBeforeMonth(y, m) == IF m = 1 THEN 0 ELSE DaysBeforeMonth(y, m - 1) + MonthLen(y, m - 1)
+\* days of year y before the first of month m (MC proves: the running sum of MonthLen)
+CumDays == <<0, 31, 59, 90, 120, 151, 181, 212, 243, 273, 304, 334>>
+DaysBeforeMonth(y, m) == CumDays[m] + (IF m > 2 /\ IsLeap(y) THEN 1 ELSE 0)
 
 \* civil date -> day number
 DayNumber(y, m, d) == DaysBeforeYear(y) + DaysBeforeMonth(y, m) + (d - 1)
